@@ -411,7 +411,9 @@ Proof.
     split; [|split; [|split; [|split; [|split]]]].
     - unfold p, packed_param. cbn [enc_param]. unfold is_required. cbn [pkind_of]. unfold vin in Hl. rewrite Hl.
       cbn [negb orb guard bind]. unfold vget. rewrite Hl. cbn [is_none negb guard bind opt_or0].
-      cbn [enc_dop]. cbn [enc_composite]. cbn [set_bit e_bit Z.eqb guard bind].
+      cbn [enc_dop]. cbn [enc_composite].
+      no_own_keys ltac:(intros q Hq; apply in_map_iff in Hq as (x & <- & _); exact I).
+      cbn [set_bit e_bit Z.eqb guard bind].
       pose proof (known_members ms ms (incl_refl ms)) as Hkm. rewrite Eps in Hkm. fold kv' in Hkm. fold kv'. rewrite Hkm.
       cbn [guard bind].
       match goal with |- bind (bind (bind ?X _) _) _ = _ =>
